@@ -196,7 +196,13 @@ func denoteRun(c *Ctx, n int, scope bool) {
 					continue
 				}
 				code := real.optCode(cd.o)
-				if cd.o.OptionalArgument || strings.Contains(string(cd.o.Field().Tag), "unquote:") {
+				if strings.Contains(string(cd.o.Field().Tag), "unquote:") {
+					continue
+				}
+				// an option whose argument is optional takes it in the attached spellings only; an
+				// attached EMPTY argument is an argument (the value ""), not the absence of one
+				optionalArg := cd.o.OptionalArgument
+				if optionalArg && code != "str" && code != "Lstr" && code != "Fstr!" {
 					continue
 				}
 				base := 10
@@ -241,6 +247,14 @@ func denoteRun(c *Ctx, n int, scope bool) {
 				v := c01Value(c, code, base)
 				long := strings.HasPrefix(cd.spelling, "--")
 				form := r.Intn(3)
+				if optionalArg {
+					if r.Intn(2) == 0 {
+						v = ""
+					}
+					if form == 0 {
+						form = 2
+					}
+				}
 				separateOK := !(strings.HasPrefix(v, "-") && len(v) > 1) || ((code == "int" || code == "Lint") && v[1] >= '0' && v[1] <= '9')
 				switch {
 				case form == 0 && separateOK:
